@@ -55,6 +55,7 @@ type Req struct {
 	Act     *Action
 	Quads   []string // dagaz tokens "cx,cy,cz,ex,ey,ez,mc"
 	Geo     string   // ray "fx,fy,fz,tx,ty,tz" or box "minx,miny,minz,maxx,maxy,maxz"
+	PingRef int      // pingResp only: answer the PingRef-th ping the server issued to this connection (0 = literal Rid)
 }
 
 func hx(b []byte) string   { return "x" + hex.EncodeToString(b) }
@@ -236,8 +237,18 @@ func ParseReq(toks []string) (*Req, error) {
 	t := &tokReader{toks: toks}
 	r := &Req{Kind: t.next()}
 	switch r.Kind {
-	case "ping", "pingResp", "debugInfo":
+	case "ping", "debugInfo":
 		r.Rid = t.u32()
+	case "pingResp":
+		if tk := t.next(); strings.HasPrefix(tk, "@") {
+			r.PingRef, _ = strconv.Atoi(tk[1:])
+		} else {
+			v, err := strconv.ParseUint(tk, 10, 32)
+			if err != nil {
+				t.err = err
+			}
+			r.Rid = uint32(v)
+		}
 	case "signedLatency":
 		r.Rid, r.N1, r.Str = t.u32(), t.u32(), t.str()
 	case "join":
